@@ -380,6 +380,7 @@ def model(world, gene_obj, reads, lo, hi, multi_sites):
         mq = bin_q(r["mapq"])
         pos, q = r["start"], 0
         subs = {}  # pos -> (op, qual)
+        rshown = {}  # pos -> alleles this read shows
         prev_q = 10
         for o, k in r["cigar"]:
             if o in ("M", "=", "X"):
@@ -390,11 +391,11 @@ def model(world, gene_obj, reads, lo, hi, multi_sites):
                     if p in mapped and contig[p] != b:
                         subs[p] = (f"{contig[p]}>{b}", bq)
                         if p in phaseable:
-                            shown[r["name"]][p].add(f"{contig[p]}>{b}")
+                            rshown.setdefault(p, set()).add(f"{contig[p]}>{b}")
                     else:
                         table[p]["_"][(mq, bin_q(bq))] += 1
                         if p in phaseable:
-                            shown[r["name"]][p].add("_")
+                            rshown.setdefault(p, set()).add("_")
                     prev_q = bq
                 pos += k
                 q += k
@@ -402,13 +403,13 @@ def model(world, gene_obj, reads, lo, hi, multi_sites):
                 for j in range(k):
                     table[pos + j]["-"][(mq, None)] += 1
                 if pos in phaseable:
-                    shown[r["name"]][pos].add("del" + contig[pos : pos + k])
+                    rshown.setdefault(pos, set()).add("del" + contig[pos : pos + k])
                 pos += k
             elif o == "I":
                 if not r.get("noqual"):
                     prev_q = sum(r["quals"][q : q + k]) / k
                 if pos in phaseable:
-                    shown[r["name"]][pos].add("ins" + r["seq"][q : q + k])
+                    rshown.setdefault(pos, set()).add("ins" + r["seq"][q : q + k])
                 q += k
             elif o == "S":
                 q += k
@@ -419,6 +420,9 @@ def model(world, gene_obj, reads, lo, hi, multi_sites):
             have = [c for c in comp if subs.get(c[0], (None,))[0] == c[1]]
             if have and len(have) == len(comp):
                 stats["mnp_complete"] += 1
+                if mpos in phaseable:
+                    # the allele this read shows at the catalogued site is the multi-substitution itself
+                    rshown[mpos] = {mop}
                 for p, (cp, cop) in enumerate(comp):
                     _, bq = subs.pop(cp)
                     if cp != mpos:
@@ -428,6 +432,8 @@ def model(world, gene_obj, reads, lo, hi, multi_sites):
                 stats["mnp_partial"] += 1
         for p, (op, bq) in subs.items():
             table[p][op][(mq, bin_q(bq))] += 1
+        for p, al in rshown.items():
+            shown[r["name"]][p] |= al
     return table, shown, stats
 
 
